@@ -336,6 +336,7 @@ func runC07(r *core.Run) {
 		hd = 5
 	}
 	c07History(r, hd)
+	c07FieldEdits(r)
 	r.Sample(map[string]any{"identity": "P-256 / ElGamal, KEY certificate + 5 extra payload bytes", "variants": "every byte ^01 and ^ff"})
 	r.Sample(map[string]any{"paths": []string{"ReadDestination", "NewDestinationFromBytes", "ReadRouterIdentity", "AsDestination", "NewDestination", "NewRouterIdentity", "RouterInfo.IdentHash"}})
 }
@@ -343,6 +344,10 @@ func runC07(r *core.Run) {
 func replayC07(r *core.Run, c core.Case) {
 	if c.Kind == "hash-history" {
 		c07History(r, 3)
+		return
+	}
+	if c.Kind == "fieldedit" {
+		c07FieldEdits(r)
 		return
 	}
 	if c.Kind == "constructed" {
